@@ -35,7 +35,7 @@ func init() {
 			if tier == "quick" {
 				return 12
 			}
-			return 200
+			return 600
 		},
 		Batch:            4,
 		Workers:          6,
